@@ -120,7 +120,7 @@ Definition model_out (c : scase) (s : sst) : option mout :=
       | Some r, Some pos =>
           let remap := remap_all mf mg mm in
           match fx_func_probes pos (has_special_of c) (ops_of (s_entry c)) (ops_of (s_exit c)) (tag_of_fl (s_entry c)) (tag_of_fl (s_exit c)) remap,
-                fx_loc_probes pos 0 r (plan_tag (s_plan c)) remap,
+                fx_loc_probes pos (length r - 1) 0 r (plan_tag (s_plan c)) remap,
                 remap (Lowering.emit r) with
           | Some fp, Some lp, Some body =>
               Some (mkOut (nonempty [(K_TYPE, fx_types s); (K_IMPORT, fx_imports s); (K_EXPORT, fx_exports s); (K_MEMORY, fx_mems s lm);
@@ -296,6 +296,35 @@ Definition probe_of_marker (c : scase) (z : Z) : option (list N * list fop * tg)
 Definition target_fp (c : scase) : option N :=
   match find_ent (base_sp 0 c (sb_funcs c)) (sb_target c) with Some e => Some (se_fp e) | None => None end.
 
+(* index space of a record body, judged without the mirror model: an index-bearing operator of the probe named an
+   entity by its handle; the operator in the record must name, by Wasm's index-space rule on the decoded output,
+   the entity with that fingerprint *)
+Definition idx_parts (t : N) : option (N * N) := if t <? IDXB then None else Some ((t - IDXB) / KSH, (t - IDXB) mod KSH).
+Definition kind_space (k : N) : sp := if N.eqb k 1 then SF else if N.eqb k 2 then SG else SM.
+Definition ref_ok (s : spst) (e : emod) (op_p op_r : fop) : bool :=
+  match op_p with
+  | FOther t =>
+      match idx_parts t with
+      | Some (k, id) =>
+          match op_r with
+          | FOther t' =>
+              match idx_parts t', find_ent (q_get s (kind_space k)) id with
+              | Some (k', q), Some en => N.eqb k k' && optN_eqb (designates e (kind_space k) q) (Some (se_fp en))
+              | _, _ => false
+              end
+          | _ => false
+          end
+      | None => fop_eqb op_p op_r
+      end
+  | _ => fop_eqb op_p op_r
+  end.
+Fixpoint refs_ok (s : spst) (e : emod) (p r : list fop) : bool :=
+  match p, r with
+  | [], [] => true
+  | a :: p', b :: r' => ref_ok s e a b && refs_ok s e p' r'
+  | _, _ => false
+  end.
+
 (* one probe record is right: it is the record of exactly one probe *)
 Definition probe_rec_ok (c : scase) (e : emod) (emitted : list fop) (r : srec) : bool :=
   match marker_of (r_body r) with
@@ -309,9 +338,10 @@ Definition probe_rec_ok (c : scase) (e : emod) (emitted : list fop) (r : srec) :
           && Nat.eqb (length (r_body r)) (length ops)
           && tag_ok t (r_tag r)
           && match find_run z (length ops) emitted with
-             | Some run => fops_eqb run (r_body r)                                     (* same index space as the encoded module *)
+             | Some run => fops_eqb run (r_body r)                                     (* the operators the encoder emitted for the probe *)
              | None => true                                                            (* the probe is not emitted (after / alternate of the final end) *)
              end
+          && refs_ok (spec_fin c) e ops (r_body r)                                     (* same index space as the encoded module *)
       end
   end.
 Definition probes_sound (c : scase) (e : emod) (emitted : list fop) (recs : list srec) : bool :=
@@ -357,6 +387,14 @@ Definition known_204 (c : scase) : bool :=
   let s := spec_fin c in
   existsb (fun x : sp => existsb (fun e => se_added e && se_imp e && se_dead e) (q_get s x)) [SF; SG; SM].
 
+(* D06 (index-space defect of C06 / C07): an import added after parsing and deleted again stays in the vector, so
+   ids are mapped to vector positions that are not the indices of the encoded module *)
+Definition known_D06s (c : scase) : bool := known_204 c.
+(* 205: the after / alternate list of the function's final `end` is never emitted and never re-mapped, but it is
+   reported: a record whose body still has the ids of the API *)
+Definition known_205 (c : scase) : bool :=
+  existsb (fun x : probe => let '(i, m, _, _) := x in Nat.eqb (S i) (length (sb_body c)) && negb (N.eqb (mode_code m) 0)) (s_plan c).
+
 Definition explain (failed : bool) (c : scase) (cands : list (N * (scase -> bool))) : list N :=
   if failed then match flat_map (fun kp : N * (scase -> bool) => if snd kp c then [fst kp] else []) cands with [] => [299] | l => l end
   else [].
@@ -370,10 +408,11 @@ Definition failing_classes (c : scase) : list N :=
       ++ explain (negb (forallb (kind_ok s fx) [K_TYPE; K_EXPORT; K_MEMORY; K_DATA; K_GLOBAL; K_FUNC])) c []
       ++ explain (negb (forallb (fun kv => existsb (N.eqb (fst kv)) (K_PROBE :: addition_kinds)) fx)) c []
       ++ explain (negb (probes_sound c e emitted (recs_of fx K_PROBE) && probes_once (recs_of fx K_PROBE) && probes_complete c (recs_of fx K_PROBE)))
-                 c [(22, known_D22)]
+                 c [(22, known_D22); (6, known_D06s); (205, known_205)]
   | _, _ => []
   end.
 Definition verdict23 (c : scase) : Util.verdict :=
   (agree c, in_domain c, holds c,
-   if holds c then (if known_D22 c then [22] else []) ++ (if known_204 c then [204] else []) else dedupN (failing_classes c)).
+   if holds c then (if known_D22 c then [22] else []) ++ (if known_204 c then [204] else []) ++ (if known_205 c then [205] else [])
+   else dedupN (failing_classes c)).
 Definition report_C23 := run_report verdict23.
